@@ -940,6 +940,27 @@ fn gen_c02(rng: &mut Rng, thorough: bool, out: &mut Cases) {
         w.b(&bs);
         out.push(60, w);
     }
+    // small scope, exhaustively: EVERY byte string up to length 5 (quick) / 7 (thorough) over an alphabet chosen to
+    // form header-type bytes, small length fields and message-info bytes; no storage header
+    {
+        let alphabet = [0x00u8, 0x01, 0x04, 0x08, 0x0e, 0x20, 0x21, 0x41];
+        let maxlen = if thorough { 7 } else { 5 };
+        for len in 0..=maxlen {
+            let total = alphabet.len().pow(len as u32);
+            for idx in 0..total {
+                let mut v = Vec::with_capacity(len);
+                let mut x = idx;
+                for _ in 0..len {
+                    v.push(alphabet[x % alphabet.len()]);
+                    x /= alphabet.len();
+                }
+                let mut w = W::new();
+                w.bool(false);
+                w.b(&v);
+                out.push(60, w);
+            }
+        }
+    }
     // junk in front of a storage-header message that is cut short: every cut of small messages (incomplete vs reject)
     for i in 0..n / 40 {
         let mut o = msg_opts_for(rng, i);
